@@ -41,7 +41,10 @@ def ops_strategy():
     simple = st.sampled_from([("ack_all",), ("ack_some", 0b1011), ("ack_some", 0b0101), ("lose",), ("lose",), ("timer",)])
     # several streams written before the next packet is built: they share the connection credit inside one packet
     burst = st.tuples(st.just("burst"), st.lists(st.tuples(st.sampled_from(["new-bidi", "new-uni", 0, 1, 2]), st.sampled_from(["lim-1", "lim", "lim", "lim+1", "1", "5000"]), st.booleans()), min_size=2, max_size=4))
-    return st.lists(st.one_of(write, write, write, burst, burst, reset, maxd, maxsd, maxsd, maxs, maxs, stop, simple, simple, simple), min_size=4, max_size=18)
+    # the tail of a stream is declared lost (only the probe that follows it is acknowledged) and the application writes more before the next
+    # transmit: one STREAM frame then carries retransmitted and new bytes
+    tail = st.tuples(st.just("tail_loss_then_write"), st.sampled_from([0, 0, 1, 2]), st.sampled_from(["lim-1", "lim", "lim+1", "1", "5000"]), st.booleans())
+    return st.lists(st.one_of(write, write, write, burst, burst, tail, tail, reset, maxd, maxsd, maxsd, maxs, maxs, stop, simple, simple, simple), min_size=4, max_size=18)
 
 
 def run_history(ctx, case):
@@ -168,7 +171,34 @@ def run_history(ctx, case):
                 break
             kind = op[0]
             cls.add("op:" + kind)
-            if kind == "burst":
+            if kind == "tail_loss_then_write":
+                _, ref, size, fin = op
+                cand = [sid for sid in streams if sid not in fin_written and sid not in reset_written and written.get(sid)]
+                if not cand:
+                    continue
+                sid = cand[ref % len(cand)]
+                # everything sent so far is acknowledged except the newest packets; then the probe timer fires and only the probes are acknowledged
+                known = [v.pn for v in tk.sut_packets if v.space == "app" and v.pn is not None]
+                sut_call("timer", tk.fire_timer, max_wait=8.0, at_least=0.0005)
+                n0 = len(tk.sut_packets)
+                observe()
+                sut_call("timer", tk.fire_timer, max_wait=8.0, at_least=0.0005)
+                observe()
+                probes = [v.pn for v in tk.sut_packets[n0:] if v.space == "app" and v.pn is not None]
+                if probes and not dead[0]:
+                    acked.update(probes)
+                    tk.now += 0.05
+                    sut_call("receive_datagram", tk.ack, probes)  # (no transmit in between)
+                    lim = max(0, min(stream_limit(sid) - written.get(sid, 0), L_conn - sum(written.values())))
+                    n = min({"lim-1": max(0, lim - 1), "lim": lim, "lim+1": lim + 1, "1": 1, "5000": 5000}[size], 60000)
+                    if n > lim:
+                        blocked[0] = True
+                    sut_call("send_stream_data", tk.sut.send_stream_data, sid, bytes((sid + written.get(sid, 0) + i) & 0xFF for i in range(n)), fin)
+                    written[sid] = written.get(sid, 0) + n
+                    if fin:
+                        fin_written.add(sid)
+                    cls.add("tail-loss-then-write")
+            elif kind == "burst":
                 lim_conn = max(0, L_conn - sum(written.values()))
                 for ref, size, fin in op[1]:
                     if ref in ("new-bidi", "new-uni") or not streams:
